@@ -271,7 +271,7 @@ func TestC09(t *testing.T) {
 		}
 		return hx.BoolE(op, l, r)
 	}
-	col.Rapid(combo.Sub, env.PerShard(env.Pick(20000, 1000000)), func(t *rapid.T) {
+	col.Rapid(combo.Sub, env.PerShard(env.Pick(200000, 2000000)), func(t *rapid.T) {
 		c := &c09ComboCase{E: gen(t, rapid.IntRange(1, 4).Draw(t, "depth")), Vars: map[string]string{}, Sp: hx.GenSpacing(t, "sp")}
 		for _, v := range vars {
 			c.Vars[v] = rapid.SampledFrom(names).Draw(t, "u"+v)
